@@ -53,7 +53,7 @@ MORE = ['Asia/Tokyo', 'Europe/Berlin', 'America/Los_Angeles',
 
 def shards(tier, seed):
     confs = ZONES + POSIX if tier == 'quick' else ZONES + POSIX + MORE
-    n = 2600 if tier == 'quick' else 26000
+    n = 2600 if tier == 'quick' else 60000
     return [{'name': 'tz-' + z.replace('/', '_'), 'tz': z, 'n': n,
              'env': {'TZ': z}} for z in confs]
 
